@@ -50,8 +50,10 @@ pub fn blocks(thorough: bool) -> Vec<Block> {
         b.push(Block::new(Universe::new("U_triples{a,b}^<=4", &["a", "b"], 4, 3, false), thr(&[0], &[(1, 1), (2, 1), (1, 2)]), "r x {(1,1),(2,1),(1,2)}"));
         b.push(Block::new(Universe::new("U_pairs{a,b}^<=6", &["a", "b"], 6, 2, false), thr(&[0], &[(1, 1), (2, 2)]), "r x {(1,1),(2,2)}"));
         b.push(Block::new(Universe::new("U_abc2{a,b,c}", &["a", "b", "c"], 2, 0, true), thr(&bases_all, &grid22), "r x 9 bases x 6 thresholds"));
-        b.push(Block::new(Universe::new("U_adv(units)", &units, 4, 2, false), thr(&[0, E, W, X, E | X, G], &[(1, 1), (1, 2), (2, 1)]), "r x 6 bases x 3 thresholds"));
-        b.push(Block::new(Universe::new("U_adv(A_esc)", A_ESC, 3, 2, false), thr(&[0, E], &[(1, 1)]), "r x {{}, e}"));
+        b.push(Block::new(Universe::new("U_adv(units)", &units, 3, 2, false), thr(&[0, E, W, X, E | X, G], &[(1, 1), (1, 2), (2, 1)]), "r x 6 bases x 3 thresholds"));
+        b.push(Block::new(Universe::new("U_adv(units)", &units, 5, 1, false), thr(&[0, E, W, X, E | X, G], &[(1, 1), (1, 2), (2, 1)]), "r x 6 bases x 3 thresholds"));
+        b.push(Block::new(Universe::new("U_adv(A_esc)", A_ESC, 2, 2, false), thr(&[0, E], &[(1, 1)]), "r x {{}, e}"));
+        b.push(Block::new(Universe::new("U_adv(A_esc)", A_ESC, 4, 1, false), thr(&[0, E], &[(1, 1), (2, 2)]), "r x {{}, e} x {(1,1),(2,2)}"));
         b.push(Block::new(Universe::new("U_a1-{a,1,-}", &["a", "1", "-"], 4, 3, false), thr(&[D | NW, W, D], &[(1, 1)]), "r x {d+W, w, d}"));
         b.push(Block::new(Universe::new("U_tok{\\d,1,\\,d}", &["\\d", "1", "\\", "d"], 4, 2, false), thr(&[D, D | W, NW, D | NS], &[(1, 1), (2, 1)]), "r x {d, d+w, W, d+S} x {(1,1),(2,1)}"));
     }
